@@ -161,7 +161,7 @@ pub fn decode(data: &[u8], early_change: bool) -> Option<Vec<u8>> {
 #[cfg(test)]
 mod tests {
     use super::*;
-    use crate::testutil::Rng;
+    use crate::refimpl::testutil::Rng;
     use weezl::{decode::Decoder, encode::Encoder, BitOrder::Msb};
 
     /// Round trip + weezl cross-check in both directions, for both EarlyChange settings.
